@@ -451,6 +451,7 @@ RULES = [
     ("C03-R5", "conforms evaluates And as conjunction and Or as disjunction", r5),
     ("C03-R6", "prefix NOT folding toggles parity and gates the negation", r6),
     ("C03-R7", "infix NOT negates the operator", r7),
+    ("C03-R8", "every outcome of a comparison is produced under the dispatch on the operator", lambda ctx: __import__("extra2").comparison_is_operator_dependent(ctx)),
 ]
 
 EXPLANATION = (
